@@ -4,7 +4,11 @@ Gas machine (C26). Transcribed from
   fuel-vm/src/interpreter/flow.rs           PrepareCallCtx::prepare_call (gas part), RetCtx::return_from_context (gas part)
   fuel-tx/.../consensus_parameters/gas.rs   DependentCost::{base, resolve, resolve_without_base}
   fuel-vm/src/interpreter/executors/main.rs run_program (gas_used)
-and the per-opcode charge schedule evaluator built on the generated table `Gen.opcodeCharge`.
+  fuel-tx/.../consensus_parameters/gas.rs   impl GasCostsValues (getters over V1 … V7), via the generated `Gen.gasGetters`
+  fuel-vm/src/interpreter/storage.rs        storage_read_slot / storage_write_slot / storage_clear_slot_range (charges)
+  fuel-vm/src/interpreter/{flow,blockchain,blob}.rs  unit counts of the base-then-dependent charges (`dependentUnits`)
+and the per-opcode charge plan (`chargePlan`) built on the generated tables `Gen.opcodeCharge` (charge site of every
+opcode), `Gen.storageOpTable` (micro-operations of the storage opcodes) and `Gen.gasGetters` (schedule versions).
 
 Words are `Nat`; every Rust operator is mirrored explicitly (`saturating_*`, `checked_*`, plain `-`
 which panics on underflow under overflow-checks => error constructor `arith`).
